@@ -1,7 +1,10 @@
 """C04 - simplify preserves the sample genealogy and sample genotypes exactly (structural clauses)."""
 from __future__ import annotations
 
-from . import lib_variant, lib_module, lib_py, lib_guards, lib_gate, lib_schema, lib_err
+from . import scopes
+import re
+
+from . import lib_variant, lib_module, lib_py, lib_guards, lib_gate, lib_schema
 
 LEVEL = "other"
 EXPLANATION = ("Option plumbing of all nine simplify options end to end with polarity, no ignored or crossed options, entry "
@@ -13,27 +16,27 @@ EXPLANATION = ("Option plumbing of all nine simplify options end to end with pol
 def run(ctx):
     P = ctx.program()
     py = ctx.python()
+    ps, ms = scopes.py_scope("C04"), scopes.module_scope("C04")
+    simp = lambda f: f.startswith("simplifier_") or f == "tsk_table_collection_simplify"
     lib_module.options_plumbing(ctx, P, funcs={"TableCollection_simplify"})
-    lib_module.array_flags(ctx, P)
-    lib_module.parsed_used(ctx, P)
+    lib_module.array_flags(ctx, P, only=ms)
+    lib_module.parsed_used(ctx, P, only=ms)
     lib_variant.simplifier_pairs(ctx, P)
-    lib_schema.argname(ctx, P, tus=("tables",))
-    lib_schema.row_forwarding(ctx, P, tus=("tables",))
+    lib_schema.argname(ctx, P, tus=("tables",), funcs=simp)
+    lib_schema.row_forwarding(ctx, P, tus=("tables",), funcs=simp)
     lib_gate.gate(ctx, P, only={"tsk_table_collection_simplify", "simplifier_init"})
     funcs = {"simplifier_init"}
     seen = lib_guards.analyse(ctx, P, funcs=funcs)
     lib_guards.presence(ctx, seen, funcs=funcs)
-    lib_py.kw_forward(ctx, py, mods=("trees", "tables"))
-    lib_py.unused_params(ctx, py, mods=("trees", "tables"))
-    lib_py.ll_positional(ctx, py, P)
+    lib_py.kw_forward(ctx, py, mods=("trees", "tables"), only=ps)
+    lib_py.unused_params(ctx, py, mods=("trees", "tables"), only=ps)
+    lib_py.ll_positional(ctx, py, P, only=ps)
     lib_py.gate_before_return(ctx, py, ["simplify"])
-    # every simplify flag is read somewhere in the simplifier
     rule = "OPTION-CONSUMED"
     ctx.rule(rule, "every TSK_SIMPLIFY_* flag that TableCollection_simplify can set is tested somewhere in the simplifier "
                    "(a flag nobody reads is an option silently ignored)")
     tu = P.tus["tables"]
-    body = "".join(tu.src(f.body) for f in tu.funcs.values() if f.name.startswith("simplifier_") or f.name == "tsk_table_collection_simplify")
-    import re
+    body = "".join(tu.src(f.body) for f in tu.funcs.values() if simp(f.name))
     got = lib_module.extract_options(P).get("TableCollection_simplify", [])
     for e in got:
         n = len(re.findall(r"&\s*%s\b" % e["flag"], body))
